@@ -39,6 +39,10 @@ pub trait Model: Sized {
     fn symmetric() -> bool {
         true
     }
+    /// largest size_of over this type and every element / field type nested in it (C06)
+    fn max_slot() -> usize {
+        std::mem::size_of::<Self>()
+    }
 }
 
 macro_rules! impl_uint {
@@ -220,6 +224,9 @@ impl<T: Model> Model for Vec<T> {
     fn to_model_dec(&self) -> String {
         list_model(self.iter(), true)
     }
+    fn max_slot() -> usize {
+        std::cmp::max(std::mem::size_of::<Self>(), T::max_slot())
+    }
     fn gen(r: &mut Rng, size: usize) -> Self {
         let n = gen_len(r, size);
         (0..n).map(|_| T::gen(r, size / 2)).collect()
@@ -241,6 +248,9 @@ impl<T: Model, const N: usize> Model for SmallVec<[T; N]> {
     fn to_model_dec(&self) -> String {
         list_model(self.iter(), true)
     }
+    fn max_slot() -> usize {
+        std::cmp::max(std::mem::size_of::<Self>(), T::max_slot())
+    }
     fn gen(r: &mut Rng, size: usize) -> Self {
         let n = gen_len(r, size);
         (0..n).map(|_| T::gen(r, size / 2)).collect()
@@ -255,6 +265,9 @@ impl<T: Model + Ord> Model for BTreeSet<T> {
     }
     fn to_model(&self) -> String {
         list_model(self.iter(), false)
+    }
+    fn max_slot() -> usize {
+        std::cmp::max(std::mem::size_of::<Self>(), T::max_slot())
     }
     fn gen(r: &mut Rng, size: usize) -> Self {
         let n = gen_len(r, size);
@@ -272,6 +285,9 @@ impl<K: Model + Ord, V: Model> Model for BTreeMap<K, V> {
         }
         s.push(')');
         s
+    }
+    fn max_slot() -> usize {
+        std::cmp::max(std::mem::size_of::<Self>(), std::cmp::max(K::max_slot(), V::max_slot()) + std::mem::size_of::<(K, V)>())
     }
     fn gen(r: &mut Rng, size: usize) -> Self {
         let n = gen_len(r, size);
@@ -299,6 +315,9 @@ impl<T: Model> Model for Option<T> {
             Some(x) => format!("(some {})", x.to_model_dec()),
         }
     }
+    fn max_slot() -> usize {
+        std::cmp::max(std::mem::size_of::<Self>(), T::max_slot())
+    }
     fn gen(r: &mut Rng, size: usize) -> Self {
         if r.chance(1, 3) {
             None
@@ -322,6 +341,9 @@ impl<T: Model> Model for Arc<T> {
     }
     fn to_model_dec(&self) -> String {
         self.as_ref().to_model_dec()
+    }
+    fn max_slot() -> usize {
+        std::cmp::max(std::mem::size_of::<Self>(), T::max_slot() + 16)
     }
     fn gen(r: &mut Rng, size: usize) -> Self {
         Arc::new(T::gen(r, size))
@@ -360,6 +382,11 @@ macro_rules! impl_tuple {
             }
             fn gen(r: &mut Rng, size: usize) -> Self {
                 ($($T::gen(r, size / 2),)+)
+            }
+            fn max_slot() -> usize {
+                let mut m = std::mem::size_of::<Self>();
+                $( m = std::cmp::max(m, $T::max_slot()); )+
+                m
             }
             fn symmetric() -> bool {
                 true $(&& $T::symmetric())+
